@@ -237,11 +237,27 @@ def run(chk):
                 "[int #*sym]": lambda: List([Integer(1), E(S("unpack-iterable"), S("u_r"))]), "{str sym}": lambda: Dict([String("k"), S("u_v")]),
                 "(. sym sym)": lambda: E(S("."), S("u_a"), S("u_b")), ":if": lambda: Keyword("if"), ":do": lambda: Keyword("do"),
                 ":setv": lambda: Keyword("setv"), ":as": lambda: Keyword("as")})
+    voc.update({"[#*None]": lambda: List([E(S("unpack-iterable"), S("None"))]), "[int #*_]": lambda: List([Integer(1), E(S("unpack-iterable"), S("_"))]),
+                "{str int #**None}": lambda: Dict([String("k"), Integer(1), E(S("unpack-mapping"), S("None"))]),
+                "{str int #**sym}": lambda: Dict([String("k"), Integer(1), E(S("unpack-mapping"), S("u_r"))]),
+                "(sym :None int)": lambda: E(S("u_C"), Keyword("None"), Integer(1)), "(sym :kw sym)": lambda: E(S("u_C"), Keyword("u_a"), S("u_v")),
+                "(.sym)": lambda: E(E(S("."), S("None"), S("u_a"))), "(.sym int)": lambda: E(E(S("."), S("None"), S("u_a")), Integer(1)),
+                "((. sym sym) int)": lambda: E(E(S("."), S("u_m"), S("u_C")), Integer(1)), "True": lambda: S("True"),
+                "[None]": lambda: List([S("None")]), "[#*True]": lambda: List([E(S("unpack-iterable"), S("True"))]),
+                "[#**None]": lambda: List([E(S("unpack-mapping"), S("None"))]), "[sym sym]": lambda: List([S("u_T"), S("u_B")]),
+                "[[sym None]]": lambda: List([List([S("u_T"), S("None")])]), ":tp": lambda: Keyword("tp")})
     for kinds in itertools.product(["E", "SE", "0"], ["(None int)", "(sym int)", "(. sym)", "(. sym sym)", "(| int)", "[int #*sym]", "{str sym}", "int", "sym", "_", "None",
-                                                      "(True)", "kw", "str", "0", "(do)"], ["E", "SE", "S", "0", "(do)"]):
+                                                      "(True)", "kw", "str", "0", "(do)", "[#*None]", "[int #*_]", "{str int #**None}", "{str int #**sym}",
+                                                      "(sym :None int)", "(sym :kw sym)", "(.sym)", "(.sym int)", "((. sym sym) int)"],
+                                   ["E", "SE", "S", "0", "(do)"]):
         TASKS.append(("macro", "match", kinds))
-        TASKS.append(("macro", "match", kinds[:2] + (":as", "sym") + kinds[2:]))
+        for tgt in ("sym", "_", "None", "True"):
+            TASKS.append(("macro", "match", kinds[:2] + (":as", tgt) + kinds[2:]))
         TASKS.append(("macro", "match", kinds[:2] + (":if", "E") + kinds[2:]))
+    # type-parameter lists
+    for tp in ("[sym]", "[None]", "[#*True]", "[#**None]", "[#*E]", "[sym sym]", "[[sym None]]", "[]", "E"):
+        for h, rest in (("defn", ("sym", "[]", "E")), ("fn", ("[]", "E")), ("defclass", ("sym", "[]")), ("deftype", ("sym", "E"))):
+            TASKS.append(("macro", h, (":tp", tp) + rest))
     for h in ("lfor", "sfor", "gfor", "dfor", "for"):
         vals = [("E",), ("0",), ("(do)",), ("S",)] if h != "dfor" else [("E", "E"), ("0", "E"), ("E", "(do)"), ("S", "E")]
         for it in ("E", "SE", "0", "(do)"):
